@@ -1,16 +1,15 @@
 package c08
 
 import (
-	"bufio"
-	"os"
-	"path/filepath"
-	"strconv"
-	"strings"
 	"testing"
 
 	"verif/evid"
 	"verif/gen/corpus"
 )
+
+// TestC08FuzzReplay registers the fuzz check's oracle for --replay of cases recorded from fuzz crashers
+// (saved crashers under testdata/fuzz/FuzzC08 are re-run by `go test` as part of FuzzC08 itself).
+func TestC08FuzzReplay(t *testing.T) { evid.Register(t, "fuzz", oracle) }
 
 // FuzzC08 is the coverage-guided supplement of the thorough tier (the driver runs it with a
 // fresh cache directory before the rapid shards). The oracle is the same as for generated cases.
@@ -29,53 +28,9 @@ func FuzzC08(f *testing.F) {
 		if len(b) > 4096 {
 			return
 		}
-		if _, err := oracle(Case{Kind: "fuzz", B: b, Preview: preview(b)}); err != nil {
-			t.Fatal(err)
+		c := Case{Kind: "fuzz", B: b, Preview: preview(b)}
+		if _, err := oracle(c); err != nil {
+			evid.FuzzFail(t, "fuzz", c, err)
 		}
 	})
-}
-
-// TestC08FuzzCrashers turns the crashers a fuzz campaign left under testdata/fuzz into recorded
-// violations with replay files (the campaign itself runs in worker processes).
-func TestC08FuzzCrashers(t *testing.T) {
-	if evid.Register(t, "fuzz", oracle) {
-		return
-	}
-	files, _ := filepath.Glob(filepath.Join("testdata", "fuzz", "FuzzC08", "*"))
-	for _, f := range files {
-		b, ok := readGoFuzzBytes(f)
-		if !ok {
-			continue
-		}
-		if !evid.Case(t, "fuzz", Case{Kind: "fuzz", B: b, Preview: preview(b)}, oracle) {
-			return
-		}
-	}
-	evid.R.Extra("fuzz_crashers_replayed", len(files))
-}
-
-// readGoFuzzBytes parses the "go test fuzz v1" corpus file format for a single []byte argument.
-func readGoFuzzBytes(path string) ([]byte, bool) {
-	fh, err := os.Open(path)
-	if err != nil {
-		return nil, false
-	}
-	defer fh.Close()
-	sc := bufio.NewScanner(fh)
-	sc.Buffer(make([]byte, 1<<20), 1<<24)
-	if !sc.Scan() || !strings.HasPrefix(sc.Text(), "go test fuzz v1") {
-		return nil, false
-	}
-	if !sc.Scan() {
-		return nil, false
-	}
-	line := strings.TrimSpace(sc.Text())
-	if !strings.HasPrefix(line, "[]byte(") || !strings.HasSuffix(line, ")") {
-		return nil, false
-	}
-	s, err := strconv.Unquote(line[len("[]byte(") : len(line)-1])
-	if err != nil {
-		return nil, false
-	}
-	return []byte(s), true
 }
